@@ -19,7 +19,7 @@ import (
 // C18 — options act only on their own aspect, in any order, on every Evaluate.
 
 const c18Rule = "option lists over {WithTagName(bexpr|alt), WithHookFn(identity|unwrap|constant|nil), WithUnknownValue(v), WithMaxExpressions(0|>=N|small)} with repeats, nil options " +
-	"and all permutations; structs tagged under both tag names, map values wrapped in the hook's wrapper struct; several Evaluate calls per evaluator; oracles: " +
+	"and all permutations; structs tagged under both tag names, map values wrapped in the hook's wrapper struct; several Evaluate calls per evaluator, the caller overwriting and re-using its option slice (spread into CreateEvaluator) between them; oracles: " +
 	"permutations agree, last of repeated options wins, neutral settings equal their absence, the unwrap hook makes wrapped documents behave as unwrapped ones and agrees " +
 	"with the reference interpreter applying the hook after every step, later calls equal the first; non-trivial = >= 2 distinct non-neutral options whose aspect the " +
 	"expression exercises; distinct by (expression, datum dump, option list)"
@@ -129,12 +129,26 @@ type c18Result struct {
 }
 
 func c18Eval(t failer, c *c18Case, text string, opts []bexpr.Option, d interface{}) c18Result {
-	ev, err := bexpr.CreateEvaluator(text, opts...)
+	// the caller's own option slice, with spare capacity, spread into the call ...
+	own := make([]bexpr.Option, len(opts), len(opts)+2)
+	copy(own, opts)
+	ev, err := bexpr.CreateEvaluator(text, own...)
 	if err != nil {
 		return c18Result{createErr: err.Error()}
 	}
 	var first c18Result
 	for i := 0; i < 3; i++ {
+		if i == 1 {
+			// ... and reused by the caller for its next evaluator: the settings given at creation govern all later calls
+			other := []bexpr.Option{bexpr.WithHookFn(constHook), bexpr.WithTagName("other"), bexpr.WithUnknownValue("reused"), nil}
+			for k := range own {
+				own[k] = other[k%len(other)]
+			}
+			own = append(own, bexpr.WithHookFn(constHook), bexpr.WithTagName("other"))
+			if ev2, err2 := bexpr.CreateEvaluator("x == 1", own...); err2 == nil {
+				ev2.Evaluate(d)
+			}
+		}
 		res, e, pan := safeEvaluate(ev, d)
 		if pan != nil {
 			violation(t, "C18", "TestC18_Options", c, "panic: %v", pan)
